@@ -40,6 +40,8 @@ pub struct NodeState {
     /// number of datastore writes answered so far (fault positions count these)
     pub writes_seen: u32,
     pub reads_seen: u32,
+    /// listdatastore answers so far
+    pub ds_reads_seen: u32,
     /// known preimages: hash -> preimage (a part completes only with the true preimage)
     pub preimages: BTreeMap<[u8; 32], [u8; 32]>,
     pub next_group: u64,
